@@ -807,6 +807,31 @@ Definition canon_Unpack : apfun :=
            [AstReturn [AxNil; AxErrorf "cannot unmarshal msg %s: %w" [AxField (AxVar "any") ApTypeUrl; AxVar "err"]]] [];
          AstReturn [AxVar "packedMsg"; AxNil] ] |}.
 
+(* Unpack as it was before /repo commit d0c621d (no nil guard, unchecked type assertion): the program AnyUtil.v's
+   [unpack_gen false] is the model of; kept, like that model, only to state what the commit repaired *)
+Definition canon_Unpack_before_fix : apfun :=
+  {| af_name := "Unpack";
+     af_params := [("any", "*anypb.Any"); ("fileResolver", "protodesc.Resolver"); ("typeResolver", "protoregistry.MessageTypeResolver")];
+     af_results := ["proto.Message"; "error"];
+     af_body :=
+       [ AstIf [] (AxEq (AxVar "typeResolver") AxNil) [AstAssign ["typeResolver"] AxGlobalTypes] [];
+         AstDefine ["url"] (AxField (AxVar "any") ApTypeUrl);
+         AstDefine ["typ"; "err"] (AxFindMessageByURL (AxVar "typeResolver") (AxVar "url"));
+         AstIf [] (AxEq (AxVar "err") AxNotFound)
+           [ AstIf [] (AxEq (AxVar "fileResolver") AxNil) [AstAssign ["fileResolver"] AxGlobalFiles] [];
+             AstDefine ["typeURL"] (AxTrimPrefix (AxField (AxVar "any") ApTypeUrl) "/");
+             AstDefine ["msgDesc"; "err"] (AxFindDescriptorByName (AxVar "fileResolver") (AxToFullName (AxVar "typeURL")));
+             AstIf [] (AxNe (AxVar "err") AxNil)
+               [AstReturn [AxNil; AxErrorf "protoFiles does not have descriptor %s: %w" [AxField (AxVar "any") ApTypeUrl; AxVar "err"]]] [];
+             AstDefine ["md"] (AxAssertMessageDesc (AxVar "msgDesc"));
+             AstAssign ["typ"] (AxNewMessageType (AxVar "md")) ]
+           [ AstIf [] (AxNe (AxVar "err") AxNil) [AstReturn [AxNil; AxVar "err"]] [] ];
+         AstDefine ["packedMsg"] (AxTypNew (AxVar "typ"));
+         AstAssign ["err"] (AxUnmarshalTo (AxVar "any") (AxVar "packedMsg"));
+         AstIf [] (AxNe (AxVar "err") AxNil)
+           [AstReturn [AxNil; AxErrorf "cannot unmarshal msg %s: %w" [AxField (AxVar "any") ApTypeUrl; AxVar "err"]]] [];
+         AstReturn [AxVar "packedMsg"; AxNil] ] |}.
+
 (* the file, in source order; and the packages it imports (path, or name=path for a renamed import), sorted *)
 Definition canon_anyprog : list apfun := [canon_New; canon_MarshalFrom; canon_Unpack].
 Definition canon_anyprog_imports : list gname :=
@@ -844,6 +869,14 @@ Definition unpack_prog_stmt : Prop :=
          (d : nat) (a : option any) (fr tr : option (registry desc)),
     ap_unpack_full msg desc opts dname descr_of marshal unmarshal default_opts gt gf canon_anyprog (S d) a fr tr
     = Some (unpack msg desc dname unmarshal gt gf a fr tr, a).
+
+(* the same for the code before the repair and the model of it *)
+Definition unpack_before_fix_prog_stmt : Prop :=
+  forall (msg desc opts : Type) (dname : desc -> str) (descr_of : msg -> desc) (marshal : opts -> msg -> outcome (list byte))
+         (unmarshal : bool -> desc -> list byte -> outcome msg) (default_opts : opts) (gt gf : registry desc)
+         (d : nat) (a : option any) (fr tr : option (registry desc)),
+    ap_unpack_full msg desc opts dname descr_of marshal unmarshal default_opts gt gf [canon_Unpack_before_fix] (S d) a fr tr
+    = Some (unpack_gen msg desc dname unmarshal false gt gf a fr tr, a).
 
 (* a program the decidable equality accepts IS the canonical one *)
 Definition apfun_eqb_sound_stmt : Prop := forall f g : apfun, apfun_eqb f g = true -> f = g.
